@@ -30,7 +30,9 @@ def scenarios_for(tier, triples=False):
         idx = range(len(m))
         combos = list(itertools.combinations_with_replacement(idx, 2))
         if triples:
-            combos = [(0, 1, 5), (1, 4, 5), (0, 5, 6), (1, 5, 7), (0, 0, 5), (1, 3, 5), (4, 5, 6), (1, 2, 5)]
+            # triples are chosen not to contain a pair with a listed known race (D6, D11, D12, D13), so that they look for
+            # new ones instead of re-reporting those
+            combos = [(0, 1, 2), (0, 1, 4), (3, 5, 6), (0, 0, 1), (1, 3, 4), (5, 6, 7), (0, 2, 3), (2, 3, 6)]
         for combo in combos:
             for iname, init in INITS:
                 calls = [menu(w)[c] for c in combo]
